@@ -40,6 +40,14 @@ def compare(scn, vals, flags, errors, kind="ekf"):
         for role, exp in checks:
             if order(role) != exp:
                 out.append(pyrep.Mismatch(step=-1, what="layout", name=role, expected=exp, observed=order(role)))
+    if kind == "ekf":
+        # configuration constants: the editing threshold of the definition (0.0 = disabled) and the default maximum step, exactly
+        conf = vals.get((-1, "config"), {})
+        gate = d.gate()
+        want = {"innovation_filtering": float(gate) if gate is not None else 0.0, "max_dt_sec": 0.1}
+        for k_, w_ in want.items():
+            if conf.get(k_) != w_:
+                out.append(pyrep.Mismatch(step=-1, what="config-constant", name=k_, expected=w_, observed=conf.get(k_)))
     for i, st in enumerate(scn["steps"]):
         act = st["act"]
         rec = {}
